@@ -48,12 +48,13 @@ def _pieces(a0, a1):
 
 
 def quad_log(f, a0, a1):
-    """int_a0^a1 f(a) da with the substitution a = e^t; raises if mpmath's own error estimate is poor."""
+    """int_a0^a1 f(a) da with the substitution a = e^t; raises unless mpmath's own error estimate is < 1e-15 |value|."""
     _dps()
     if a0 == a1:
         return mp.mpf(0)
     val, err = mp.quad(lambda t: f(mp.exp(t)) * mp.exp(t), _pieces(a0, a1), error=True)
-    if err > mp.mpf(10) ** (-18) * max(1, abs(val)):
+    # relative guard: for nearly equal limits the value itself is tiny (down to 1e-20)
+    if err > mp.mpf(10) ** (-15) * abs(val) + mp.mpf(10) ** (-45):
         raise ArithmeticError(f"reference quadrature did not converge: err={err} val={val}")
     return val
 
